@@ -998,6 +998,18 @@ def _subscribe_closure(core):
     return b, viol, reach, bad
 
 
+
+def _native_battery(out, scenario, vectors, what):
+    """validation, not the deciding step: the native scenario (real crates, oracle written from the property text) on fixed vectors must report nothing
+    when every obligation is discharged; a disagreement means an obligation or the oracle is wrong => undecided"""
+    val = R.validate_encoding(scenario, vectors, lambda v: {}, [])
+    VALIDATION[what] = val
+    if val.get("native_violations") and all(r.get("status") == "discharged" for r in out):
+        out.append(R.Result(engine="mirsym", name="validation:" + what, kind="validation", status="native-battery-disagrees",
+                            detail=f"{val['native_violations']} native violation(s) on the validation vectors although every obligation is discharged", bodies=[]))
+    return out
+
+
 def obligations(tier, seed):
     core = R.bodies("core")
     srv = R.bodies("server")
@@ -1031,4 +1043,7 @@ def obligations(tier, seed):
                                  "sink, the method's subscriber table (the one the unsubscribe callback uses) and the permit received with the call",
                             bounds="every path of the subscribe callback", keydetail="pending-sink-fields",
                             replay=dict(scenario="c06_history", vars={}, fixed={"cap": 1, "ops": [["sub", 0], ["sub", 0], ["unsub", 0, 0], ["finish", 0], ["sub", 0], ["unsub", 1, 1]]}, region=z3.BoolVal(True))))
-    return out
+    hist = [{"cap": 2, "ops": [["sub", 0], ["sub", 0], ["sub", 0], ["query", 0], ["unsub", 1, 0], ["unsub", 0, 0], ["unsub", 0, 0], ["query", 0], ["finish", 0], ["sub", 0], ["sub_reject", 0], ["unsub_unknown", 0]]},
+            {"cap": 2, "ops": [["sub", 0], ["clone", 0], ["dropone", 0], ["query", 0], ["unsub", 0, 0], ["query", 0], ["dropone", 0], ["sub", 0], ["sub", 0]]},
+            {"cap": 1, "entry": "low_level", "ops": [["sub", 0], ["sub", 1], ["sub", 0], ["finish", 0], ["sub", 0]]}]
+    return _native_battery(out, "c06_history", hist, "native-histories")
